@@ -182,6 +182,9 @@ func DeleteEmptyIndices(ingestNodeDir string, myid int64) {
 
 	utils.MergeMapsRetainingFirst(virtualTableNames, utn)
 	utils.MergeMapsRetainingFirst(virtualTableNames, rrtn)
+	// an index whose records are still buffered in memory, or in the middle of their first flush, has no segment
+	// of any kind yet
+	utils.MergeMapsRetainingFirst(virtualTableNames, writer.GetIndexNamesForSegStores())
 
 	// Iterate over all indices
 	for indexName := range allIndices {
